@@ -39,6 +39,7 @@ package chain
 
 //@ func (*Transaction).PreExecute props C10
 //@   requires Rules.GetValidityWindow(r) >= 0 && timestamp + Rules.GetValidityWindow(r) <= MaxInt64
+//@   requires internalfees.wellFormed(feeManager)
 //@   loop 1 invariant 0 <= idx1 && idx1 <= len(t.Actions)
 //@   loop 1 invariant forall j int :: 0 <= j && j < idx1 ==> active(fst(Action.ValidRange(t.Actions[j], r)), snd(Action.ValidRange(t.Actions[j], r)), timestamp)
 //@   ensures err == nil ==> t.Base.ChainID == Rules.GetChainID(r)
